@@ -282,6 +282,20 @@ func runReopen(o *Opts) {
 						break
 					}
 				}
+				// ---- re-open through a path relative to the working directory ----
+				if wd, err := os.Getwd(); err == nil && os.Chdir(caseDir) == nil {
+					if b4, err := sourcebundle.OpenDir("bundle"); err != nil {
+						c.Viol = append(c.Viol, viol("C09", "a finished bundle does not open through a relative path: "+err.Error()))
+					} else {
+						obs4 := observeBundle(b4, target)
+						if d := diffObs(obs0, obs4); d != "" {
+							c.Viol = append(c.Viol, viol("C09", "bundle re-opened through a relative path differs from the one returned by Close: "+d))
+						} else if d := diffList(look0, lookupsOf(b4, target, obs4)); d != "" {
+							c.Viol = append(c.Viol, viol("C09", "bundle re-opened through a relative path answers a lookup differently: "+d, tieSig(obs0)...))
+						}
+					}
+					os.Chdir(wd)
+				}
 				// ---- re-open through a path with a symbolic link in it: the caller's spelling is the root ----
 				via := filepath.Join(caseDir, "via")
 				if err := os.Symlink(target, via); err == nil {
